@@ -129,6 +129,17 @@ fn os_text(errno: i32) -> String {
 fn judge(b: &Base, faults: &[(usize, i32)], world: &Arc<World>, run: &RunResult, o: &mut Outcome, replay: &serde_json::Value) {
     let w = world.inner.lock().unwrap();
     let site = b.cell.name();
+    if w.deadline_hit {
+        o.hit("run_ends_within_virtual_time_budget");
+        o.violate(
+            "run_ends_within_virtual_time_budget",
+            site.clone(),
+            format!("the tracer was still running after three times the virtual time its round limit allows ({} rounds published of {}); it was stopped by failing its socket calls", run.rounds.len(), b.rounds),
+            replay.clone(),
+        );
+        return;
+    }
+    o.hit("run_ends_within_virtual_time_budget");
     // which injected faults were actually reached, on which call, in which phase?
     let setup_end = w
         .log
